@@ -74,6 +74,14 @@ def run_case(case):
                 elif not st_["srv_done"] and not sock.closed:
                     if op == "srv_data":
                         peer.deliver(rm.encode_frame(1, rm.TEXT if stp[1] else rm.BINARY, b"s%d" % i))
+                    elif op == "srv_big":
+                        # a message of stp[1] bytes, in one frame or in three fragments with a ping in between
+                        body = b"B" * stp[1]
+                        if stp[2]:
+                            k = stp[1] // 3
+                            peer.deliver(rm.encode_frame(0, rm.BINARY, body[:k]) + rm.encode_frame(1, rm.PING, b"mid") + rm.encode_frame(0, rm.CONT, body[k:2 * k]) + rm.encode_frame(1, rm.CONT, body[2 * k:]))
+                        else:
+                            peer.deliver(rm.encode_frame(1, rm.BINARY, body))
                     elif op == "srv_burst":
                         # several frames in ONE segment: whatever the client has not consumed when it closes must not be returned afterwards
                         peer.deliver(b"".join(rm.encode_frame(1, rm.TEXT, b"b%d-%d" % (i, k)) for k in range(stp[1])))
@@ -239,7 +247,8 @@ step = st.one_of(
     st.tuples(st.just("recv_frame")),
     st.tuples(st.just("fault_write"), st.sampled_from([0, 1, 3, 6])),
     st.tuples(st.just("close"), status, reason, st.sampled_from([0.5, 1, 3])),
-    st.tuples(st.just("close"), status, reason, st.sampled_from([0.5, 1, 3])),
+    st.tuples(st.just("close"), status, reason, st.sampled_from([0.5, 1, 3, 0, 0.0, 2])),
+    st.tuples(st.just("srv_big"), st.sampled_from([70000, (1 << 20) + 1, 3 << 20]), st.booleans()),
     st.tuples(st.just("send_close"), status, reason),
     st.tuples(st.just("shutdown")),
     st.tuples(st.just("srv_data"), st.booleans()),
@@ -279,11 +288,24 @@ def enum_histories(max_len, shard, of):
             yield {"steps": [list(ALPHABET[k]) for k in hist], "server": POLICIES[i % len(POLICIES)], "sock_timeout": 1.0}
 
 
+def fixed_histories():
+    """close(timeout=0) ("do not wait for the reply") and large server messages before the close, against every server policy."""
+    for pol in POLICIES + [{"close": ["reply", 2.0]}]:
+        for t in (0, 0.0):
+            yield {"steps": [["send", "hi"], ["close", 1000, b"", t], ["send", "after"], ["recv"]], "server": pol, "sock_timeout": 1.0}
+            yield {"steps": [["srv_data", True], ["close", 1001, b"bye", t], ["close", 1000, b"", 1]], "server": pol, "sock_timeout": 1.0}
+        for size in (70000, (1 << 20) + 1, 3 << 20):
+            for frag in (False, True):
+                for reader in (["recv"], ["recv_data_frame"]):
+                    yield {"steps": [["srv_big", size, frag], reader, ["close", 1000, b"", 1], ["send", "after"]], "server": pol, "sock_timeout": 1.0}
+
+
 def jobs(tier, seed):
     n, shards, steps = (1600, 8, 30) if tier == "quick" else (128000, 16, 50)
     out = [{"name": f"hyp-{i}", "kind": "hyp", "seed": seed * 1000 + i, "n": n // shards, "steps": steps} for i in range(shards)]
     L = 4 if tier == "quick" else 5
     out += [{"name": f"enum-{i}", "kind": "enum", "len": L, "shard": i, "of": 16} for i in range(16)]
+    out.append({"name": "fixed", "kind": "fixed"})
     return out
 
 
@@ -292,5 +314,8 @@ def run_job(job, coll):
         for c in enum_histories(job["len"], job["shard"], job["of"]):
             coll.check(c, run_case)
         coll.exhaustive[f"all histories of length <= {job['len']} over a 15-operation alphabet (server policy rotating)"] = True
+    elif job["kind"] == "fixed":
+        for c in fixed_histories():
+            coll.check(c, run_case)
     else:
         hyp_run(coll, cases(job["steps"]), run_case, job["seed"], job["n"])
